@@ -362,12 +362,22 @@ impl PeerHandler {
     }
 
     async fn handle_choke(&mut self) -> Result<bool, Box<dyn std::error::Error>> {
+        // Repeated Choke doesn't change anything
+        if self.peer_state.choked {
+            return Ok(true);
+        }
+
         self.peer_state.choked = true;
         self.trigger_cmd_recv_choke().await?;
         Ok(true)
     }
 
     async fn handle_unchoke(&mut self) -> Result<bool, Box<dyn std::error::Error>> {
+        // Repeated Unchoke doesn't change anything, piece (if any) is already being downloaded
+        if !self.peer_state.choked {
+            return Ok(true);
+        }
+
         self.peer_state.choked = false;
 
         if !self.msg_buff.is_empty() {
